@@ -171,6 +171,10 @@ def classify(res):
             elif 'unmodelled external' in d or 'harness bound' in d or 'not modelled' in d: unwind_bad.append(p)
             else: bad.append(p)
     res['witness'] = {'reachable': wit_ok, 'unreachable': wit_bad}
+    conv_bad = [p for p in bad if 'conversion in range' in p.get('description', '')]
+    if unwind_bad and conv_bad:
+        # an out-of-range float->int conversion is undefined behaviour at that point; exceeded harness bounds further on are its consequences
+        return 'violated', '; '.join('%s [%s]' % (p.get('description'), p.get('property')) for p in conv_bad[:4]), conv_bad[0]
     if unwind_bad:
         return 'inconclusive', 'bound exceeded / unmodelled: ' + '; '.join(sorted({p.get('description', '') + (' [%s]' % p.get('property') if 'unwinding' in p.get('description', '') else '') for p in unwind_bad}))[:800], None
     if not wit_ok and not bad:
